@@ -470,6 +470,86 @@ func vfProcSignalCases() []vfCase {
 			c.Sample(map[string]interface{}{"kind": "real signal", "signal": int(sig), "exit_after_ms": took.Milliseconds()})
 		}})
 	}
+	// the same signals in the handshake: the server has printed its trigger and nobody has answered yet
+	for _, name := range []string{"trz", "tsz"} {
+		for _, sig := range []syscall.Signal{syscall.SIGINT, syscall.SIGTERM} {
+			name, sig := name, sig
+			cases = append(cases, vfCase{ID: fmt.Sprintf("proc-signal-handshake-%s-%d", name, int(sig)), Run: func(c *vfCtx) {
+				src := filepath.Join(c.Dir, "src")
+				dst := filepath.Join(c.Dir, "dst")
+				home := filepath.Join(c.Dir, "home")
+				for _, d := range []string{src, dst, home} {
+					os.MkdirAll(d, 0755)
+				}
+				os.WriteFile(filepath.Join(src, "f.bin"), []byte("content"), 0644)
+				os.WriteFile(filepath.Join(dst, "keep.txt"), []byte("keep"), 0644)
+				args := []string{"-t", "30", dst}
+				if name == "tsz" {
+					args = []string{"-t", "30", filepath.Join(src, "f.bin")}
+				}
+				cmd := exec.Command(vfBin(name), args...)
+				cmd.Env = vfProcEnv(home)
+				cmd.Dir = src
+				stdin, _ := cmd.StdinPipe()
+				stdout, _ := cmd.StdoutPipe()
+				var stderr bytes.Buffer
+				cmd.Stderr = &stderr
+				if err := cmd.Start(); err != nil {
+					c.Inconc("%v", err)
+					return
+				}
+				defer stdin.Close()
+				out := vfNewSink()
+				go io.Copy(out, stdout)
+				for dl := time.Now().Add(20 * time.Second); !bytes.Contains(out.Bytes(), []byte("::TRZSZ:TRANSFER:")) && time.Now().Before(dl); {
+					time.Sleep(5 * time.Millisecond)
+				}
+				if !bytes.Contains(out.Bytes(), []byte("::TRZSZ:TRANSFER:")) {
+					cmd.Process.Kill()
+					cmd.Wait()
+					c.Inconc("%s printed no trigger within 20 s: %q / %q", name, vfHead(out.Bytes(), 200), vfHead(stderr.Bytes(), 200))
+					return
+				}
+				time.Sleep(200 * time.Millisecond)
+				t0 := time.Now()
+				cmd.Process.Signal(sig)
+				done := make(chan error, 1)
+				go func() { done <- cmd.Wait() }()
+				var werr error
+				select {
+				case werr = <-done:
+				case <-time.After(30 * time.Second):
+					cmd.Process.Kill()
+					<-done
+					c.Slow("c10-proc-signal-hang", "%s did not exit within 30 s of signal %d delivered in the handshake", name, int(sig))
+					return
+				}
+				took := time.Since(t0)
+				time.Sleep(50 * time.Millisecond)
+				term := string(out.Bytes())
+				if ee, ok := werr.(*exec.ExitError); ok {
+					if ws, ok := ee.Sys().(syscall.WaitStatus); ok && ws.Signaled() {
+						c.Viol("c10-proc-killed-by-signal", "%s was killed by signal %d delivered in the handshake (no report, the client is left waiting); output so far %q", name, int(sig), vfHead([]byte(term), 200))
+						return
+					}
+				}
+				if !strings.Contains(term, "Stopped") && !strings.Contains(term, "#fail:") && !strings.Contains(term, "#FAIL:") {
+					c.Viol("c10-proc-not-reported-stopped", "after signal %d in the handshake %s exited (%v) without telling the other side or the user: %q", int(sig), name, werr, vfHead([]byte(term[vfMax(0, len(term)-300):]), 300))
+					return
+				}
+				if took > 6*time.Second {
+					c.Slow("c10-proc-signal-slow", "%s took %v to exit after signal %d in the handshake", name, took, int(sig))
+					return
+				}
+				if b, err := os.ReadFile(filepath.Join(dst, "keep.txt")); err != nil || string(b) != "keep" {
+					c.Viol("c10-proc-touched-other", "keep.txt changed")
+					return
+				}
+				c.Obs("real_signals_delivered_in_handshake", 1)
+				c.Nontrivial(fmt.Sprintf("handshake signal %s %d", name, int(sig)))
+			}})
+		}
+	}
 	return cases
 }
 
